@@ -14,6 +14,7 @@ use std::collections::BTreeMap;
 use serde::Serialize;
 
 pub mod exec;
+pub mod h1conn;
 
 /// SplitMix64: the only source of randomness in the harness.
 #[derive(Clone, Debug)]
